@@ -13,10 +13,10 @@ type Batch struct {
 	Mode      string            `json:"mode"`
 	Batch     int               `json:"batch"`
 	NBatch    int               `json:"nbatch"`
-	Race      bool              `json:"race"`      // run the -race build
-	Env       map[string]string `json:"env"`       // e.g. GOMAXPROCS
+	Race      bool              `json:"race"`       // run the -race build
+	Env       map[string]string `json:"env"`        // e.g. GOMAXPROCS
 	WatchdogS int               `json:"watchdog_s"` // generous; firing = inconclusive
-	Weight    int               `json:"weight"`    // cores it will keep busy
+	Weight    int               `json:"weight"`     // cores it will keep busy
 	Args      map[string]string `json:"args"`
 	// ExpectRace marks the self-test child whose race report is *required*.
 	ExpectRace bool `json:"expect_race"`
